@@ -252,19 +252,29 @@ class Ctx(object):
 
     # transcendental functions for specs
     def exp(self, x):
-        return x.exp() if isinstance(x, Sym) else math.exp(x)
+        if self.sym:
+            return uf_apply('exp', x)
+        return math.exp(x)
 
     def log(self, x):
-        return x.log() if isinstance(x, Sym) else math.log(x)
+        if self.sym:
+            return uf_apply('ln', x)
+        return math.log(x)
 
     def log10(self, x):
-        return x.log10() if isinstance(x, Sym) else math.log10(x)
+        if self.sym:
+            return uf_apply('log10', x)
+        return math.log10(x)
 
     def exp10(self, x):
-        return uf_apply('exp10', x) if isinstance(x, Sym) else 10.0 ** x
+        if self.sym:
+            return uf_apply('exp10', x)
+        return 10.0 ** x
 
     def sqrt(self, x):
-        return x.sqrt() if isinstance(x, Sym) else math.sqrt(x)
+        if self.sym:
+            return uf_apply('sqrt', x)
+        return math.sqrt(x)
 
     def lemma(self, b):
         """a true fact about the uninterpreted functions, added as assumption (sym only)"""
